@@ -339,5 +339,15 @@ func genC10(r *hx.Rng, tier string, w io.Writer) {
 	for i := 0; i < 15*mul; i++ {
 		g.queue(ops/2 + r.Intn(ops))
 	}
+	if tier == "thorough" {
+		// supporting exploration: concurrent histories (porcupine) and real badger with reopen
+		g.reset("seq", 0)
+		for i := 0; i < 12; i++ {
+			g.line("conc seed=%d writers=%d per=%d readers=%d max=%d", r.Intn(1000), 2+r.Intn(3), 4+r.Intn(6), 1+r.Intn(2), []int{0, 0, 2, 5}[r.Intn(4)])
+		}
+		for i := 0; i < 6; i++ {
+			g.line("badger seed=%d n=%d", r.Intn(100000), 40+r.Intn(60))
+		}
+	}
 	g.malformed()
 }
